@@ -5,8 +5,9 @@ From VLS Require Export Base.Eqb Model.Monitor.
 Definition clo_obs : Type := option (N * option (N * bool) * list (N * bool) * list (outpoint * bool)).
 Definition state_obs : Type :=
   (N * option N * option outpoint * option N * option N * option N * clo_obs * option N * option N * bool)%type.
-(** state, watches, seen, (funding, double-spend, closing) depth, is_done *)
-Definition obs : Type := (state_obs * list outpoint * list outpoint * (N * N * N) * bool)%type.
+(** state, watches, seen, (funding, double-spend, closing) depth, is_done, as_chain_state *)
+Definition obs : Type :=
+  (state_obs * list outpoint * list outpoint * (N * N * N) * bool * (N * N * N * N))%type.
 
 Definition obs_clo (c : option closing) : clo_obs :=
   option_map (fun c => (c_txid c, c_our c, c_htlcs c, c_second c)) c.
@@ -16,7 +17,7 @@ Definition obs_state (s : state) : state_obs :=
 Definition obs_mon (forgot : bool) (m : mon) : obs :=
   let s := m_state m in
   (obs_state s, m_watches m, m_seen m,
-   (funding_depth s, double_spent_depth s, closing_depth s), is_done s forgot).
+   (funding_depth s, double_spent_depth s, closing_depth s), is_done s forgot, chain_state s).
 
 (** one delivery to the monitor *)
 Inductive step :=
